@@ -781,10 +781,19 @@ func (bc *Blockchain) jumpToStateInternal(p uint32, stage stateChangeStage) erro
 			return fmt.Errorf("failed to get dao.Version: %w", err)
 		}
 		v.StoragePrefix = newPrefix
-		bc.dao.PutVersion(v)
+		// The new prefix and the stage saying that it's in effect go together,
+		// the periodic flush must not separate them: the stage is what the
+		// jump is resumed from after a restart.
+		cache := bc.dao.GetPrivate()
+		cache.PutVersion(v)
+		cache.Store.Put(jumpStageKey, []byte{byte(newStorageItemsAdded)})
+		_, err = cache.Persist()
+		if err != nil {
+			return fmt.Errorf("failed to store %d stage of state jump: %w", stateJumpStarted, err)
+		}
+		bc.dao.Version = v
 		bc.persistent.Version = v
 
-		bc.dao.Store.Put(jumpStageKey, []byte{byte(newStorageItemsAdded)})
 		_, err = bc.dao.Store.Persist()
 		if err != nil {
 			return fmt.Errorf("failed to persist %d stage of state jump: %w", stateJumpStarted, err)
